@@ -36,10 +36,13 @@ RULE = ("stream cases = (protocol variant v1|v2 plain|v2 encrypted) x channels{1
         "stream, real send_audio and teardown, reset() in between as the code does), with retransmit requests during "
         "earlier and later streams, also with the same start sequence number twice. non-trivial = the stream has a "
         "short last data packet, or wraps the sequence number, or compensated at least once, or a request that "
-        "crosses the wrap / the backlog edge, or a fifo script with an eviction or a raise, or a session of >= 2 streams; plus one stream of more than 2^16 packets (a full circle of the sequence space; "
+        "crosses the wrap / the backlog edge, or a fifo script with an eviction or a raise, or a session of >= 2 streams, or a read that came back short before the end of the source; sources with short reads at "
+        "arbitrary points: a read-size schedule on the scripted source, the real BufferedIOBaseSource (buffering task with "
+        "scripted executor turns and a late reader; and opened from an io.BytesIO WAV through real miniaudio) in front of "
+        "the real _stream_data, oracle = every delivered frame exactly once and in order, zero padding allowed anywhere; plus one stream of more than 2^16 packets (a full circle of the sequence space; "
         "thorough: a second, all-silence one that is also run on the model); distinct = canonical case")
 ASSUMPTIONS = [
-    "AudioSource.readframes(n) returns the next n*frame_size bytes of the source, fewer at the end, b'' when exhausted",
+    "AudioSource.readframes(n) returns the next bytes of the source in order: at most n*frame_size, possibly fewer at any point (the code zero-pads every short non-empty read to a packet), b'' when exhausted",
     "the stream is not stopped (stop()) and the audio transport is not closing while it runs",
     "timestamps stay below 2^32 (streams shorter than ~27 h); frame size > 0",
 ]
@@ -207,14 +210,29 @@ class StallingReader:
         return chunk
 
 
-def make_buffered_source(case, pcm, clock):
-    """The real BufferedIOBaseSource (its buffering task, its readframes) over a scripted reader."""
+async def make_buffered_source(case, pcm, clock):
+    """The real BufferedIOBaseSource (its buffering task, its readframes): over a scripted reader
+    with scripted executor turns ("buffered"), or opened the way stream_file opens an
+    io.BytesIO holding a WAV file — real miniaudio decoding, real executor threads ("buffered-open")."""
     from pyatv.protocols.raop.audio_source import BufferedIOBaseSource
     from pyatv.support.metadata import EMPTY_METADATA
 
-    reader = StallingReader(pcm, case["srcseed"] ^ 0x5A5A, case["channels"] * case["bps"])
-    src = BufferedIOBaseSource(reader, None, EMPTY_METADATA, case.get("sample_rate", 44100), case["channels"], case["bps"])
-    src.loop = ExecLoop(case["lagseed"])
+    if case["source"] == "buffered-open":
+        import io
+        import wave
+        buf = io.BytesIO()
+        w = wave.open(buf, "wb")
+        w.setnchannels(case["channels"])
+        w.setsampwidth(case["bps"])
+        w.setframerate(case.get("sample_rate", 44100))
+        w.writeframes(pcm)
+        w.close()
+        buf.seek(0)
+        src = await BufferedIOBaseSource.open(buf, case.get("sample_rate", 44100), case["channels"], case["bps"])
+    else:
+        reader = StallingReader(pcm, case["srcseed"] ^ 0x5A5A, case["channels"] * case["bps"])
+        src = BufferedIOBaseSource(reader, None, EMPTY_METADATA, case.get("sample_rate", 44100), case["channels"], case["bps"])
+        src.loop = ExecLoop(case["lagseed"])
     src.chunks = []
     real = src.readframes
 
@@ -233,7 +251,7 @@ def expected_source(case):
     """The frames the source has to deliver: for the scripted source its bytes; for the real
     BufferedIOBaseSource the PCM it was given, as 16-bit samples in the byte order it emits."""
     data = source_bytes(case)
-    if case.get("source") == "buffered":
+    if str(case.get("source", "")).startswith("buffered"):
         import array
         import sys as _sys
         a = array.array("h", data)
@@ -270,7 +288,7 @@ def carried_with_padding(stream, src):
 
 
 def scheduled(case):
-    return bool(case.get("reads")) or case.get("source") == "buffered"
+    return bool(case.get("reads")) or str(case.get("source", "")).startswith("buffered")
 
 
 def source_bytes(case):
@@ -322,8 +340,8 @@ def execute(case):
         audio, ctrl = Transport(), Transport()
         control = sc.ControlClient(context, client._packet_backlog)
         control.connection_made(ctrl)
-        if case.get("source") == "buffered":
-            source = make_buffered_source(case, data, clock)
+        if str(case.get("source", "")).startswith("buffered"):
+            source = await make_buffered_source(case, data, clock)
         else:
             source = make_source(data, frame_size, clock, case.get("reads"))
 
@@ -1076,7 +1094,7 @@ def run_cases(ctx, cases):
         ctx.note("variant:" + case["variant"])
         if scheduled(case):
             short = sum(1 for c in obs.get("chunks", [])[:-1] if len(c) < FPP * fs)
-            ctx.note("source:" + ("BufferedIOBaseSource" if case.get("source") == "buffered" else "read-schedule"))
+            ctx.note("source:" + (case.get("source") or "read-schedule"))
             ctx.note("short reads before the end", short)
             nontrivial = nontrivial or short > 0
         ctx.note("frame_size:%d" % fs)
@@ -1131,6 +1149,10 @@ def gen_short_read_cases(ctx):
         cases.append(base_case(rng, variant=("v1", "v2c")[i % 2], channels=ch, bps=2, frames=frames, source="buffered",
                                s0=rng.choice((65535, rng.randrange(MOD))), latency=rng.choice((352, 1000)),
                                lagp=rng.choice((0.0, 0.3))))
+    for i in range(ctx.scale(3, 12)):              # stream_file(io.BytesIO(wav)): real decoder, real executor
+        cases.append(base_case(rng, variant="v1", channels=rng.choice((1, 2)), bps=2, source="buffered-open",
+                               frames=rng.choice((7 * FPP + 5, 3 * FPP, rng.randrange(1, 30 * FPP))),
+                               s0=rng.randrange(MOD), latency=352, lagp=0.0))
     return cases
 
 
